@@ -61,7 +61,7 @@ PROPS = {
         ],
     },
     "C02": {
-        "units": ["cer", "clt", "org"], "kani_complete": [], "kani_bounded_quick": ["choose_alg"], "kani_bounded_thorough": [],
+        "units": ["cer", "clt", "org"], "assumes": {"ad": r"^ad::(Default for Flags::default|From<Flags> for u8::from|AuthenticatorData::to_vec|AuthenticatorData::rp_id_hash|AuthenticatorData::set_\w+::ensures#frame-(hash|sections|flags)\b|AuthenticatorData::set_\w+::safety|AuthenticatorData::new::safety|AuthenticatorData::new::ensures#(fresh|no-sections|no-at)|AuthenticatorData::set_flags::ensures#at-exactly-with-section|AuthenticatorData::set_attested_credential_data::|AttestedCredentialData::(new::(ensures#stored|safety)|credential_id|into_iter))", "rpid": r"^rpid::RpIdVerifier::assert_(domain|web_rp_id|android_rp_id)::(ensures#effective-id|safety)$"}, "kani_complete": [], "kani_bounded_quick": ["choose_alg"], "kani_bounded_thorough": [],
         "design_ref": "DESIGN.md section 5 / C02",
         "not_covered": [
             "Client::register's dataflow is decided by unit clt (client data fields, request assembly, both authenticator-data copies "
@@ -84,7 +84,7 @@ PROPS = {
         ],
     },
     "C03": {
-        "units": ["cer", "clt", "org"], "kani_complete": [], "kani_bounded_quick": [], "kani_bounded_thorough": [],
+        "units": ["cer", "clt", "org"], "assumes": {"ad": r"^ad::(Default for Flags::default|From<Flags> for u8::from|AuthenticatorData::to_vec|AuthenticatorData::rp_id_hash|AuthenticatorData::set_\w+::ensures#frame-(hash|sections)\b|AuthenticatorData::set_\w+::safety|AuthenticatorData::new::safety|AuthenticatorData::new::ensures#(fresh|no-sections|no-at)|AuthenticatorData::set_flags::ensures#at-exactly-with-section)", "rpid": r"^rpid::RpIdVerifier::assert_(domain|web_rp_id|android_rp_id)::(ensures#effective-id|safety)$"}, "kani_complete": [], "kani_bounded_quick": [], "kani_bounded_thorough": [],
         "design_ref": "DESIGN.md section 5 / C03",
         "not_covered": [
             "that the ECDSA signature verifies under the registered public key: p256 is an assumed dependency "
@@ -96,7 +96,7 @@ PROPS = {
         ],
     },
     "C04": {
-        "units": ["cer", "clt"], "kani_complete": [], "kani_bounded_quick": [], "kani_bounded_thorough": [],
+        "units": ["cer", "clt"], "assumes": {"ad": r"^ad::(Default for Flags::default|From<Flags> for u8::from|AuthenticatorData::to_vec|AuthenticatorData::set_\w+::ensures#frame-(flags)\b|AuthenticatorData::set_\w+::safety|AuthenticatorData::new::safety|AuthenticatorData::set_flags::ensures#or-in)"}, "kani_complete": [], "kani_bounded_quick": [], "kani_bounded_thorough": [],
         "design_ref": "DESIGN.md section 5 / C04",
         "not_covered": [
             "the client mapping of userVerification to the uv option is decided by unit clt (both ceremonies)",
@@ -122,7 +122,7 @@ PROPS = {
         ],
     },
     "C08": {
-        "units": ["cer"], "kani_complete": [], "kani_bounded_quick": [], "kani_bounded_thorough": [],
+        "units": ["cer"], "assumes": {"ad": r"^ad::(Default for Flags::default|From<Flags> for u8::from|AuthenticatorData::to_vec|AuthenticatorData::set_\w+::ensures#frame-(counter)\b|AuthenticatorData::set_\w+::safety|AuthenticatorData::new::safety|AuthenticatorData::new::ensures#counter)"}, "kani_complete": [], "kani_bounded_quick": [], "kani_bounded_thorough": [],
         "design_ref": "DESIGN.md section 5 / C08",
         "not_covered": [
             "the big-endian encoding of the counter in authenticator data (C12)",
